@@ -23,13 +23,19 @@ var stats = evid.New("C13", "rapid: histories of uploads / bundle deletes / squa
 
 // ids of the findings this check can be told to steer around (only when listed as known)
 const (
-	KnownDedupNoTouch   = "C13-dedup-hit-keeps-old-update-time"
-	KnownResumeLeaves   = "C13-resume-skips-leaves-of-uploaded-roots"
-	KnownChunkPutMarks  = "C13-failed-chunk-put-loses-keys"
-	KnownRootGetSkipped = "C13-failed-root-read-drops-leaves"
-	KnownGetAttrIgnored = "C13-failed-attr-read-deletes-blob"
-	KnownResumeNoChunk  = "C13-resume-without-chunk-panics"
+	KnownDedupNoTouch    = "C13-dedup-hit-keeps-old-update-time"
+	KnownResumeLeaves    = "C13-resume-skips-leaves-of-uploaded-roots"
+	KnownChunkPutMarks   = "C13-failed-chunk-put-loses-keys"
+	KnownRootGetSkipped  = "C13-failed-root-read-drops-leaves"
+	KnownGetAttrIgnored  = "C13-failed-attr-read-deletes-blob"
+	KnownResumeNoChunk   = "C13-resume-without-chunk-panics"
+	KnownChunkReadBreaks = "C13-broken-chunk-download-taken-as-complete"
 )
+
+// pinned cases run with the exclusions of known findings switched off: they are the reproductions
+var noExclude bool
+
+func known(id string) bool { return !noExclude && hx.Known(id) }
 
 func TestMain(m *testing.M) {
 	code := m.Run()
@@ -87,7 +93,11 @@ var indexFaultMenu = []faultT{
 	{Store: "blob", Op: memstore.OpGet, Key: ""},
 	{Store: "meta", Op: memstore.OpPut, Key: "reverse-index"},
 	{Store: "meta", Op: memstore.OpPut, Key: "reverse-index"},
+	{Store: "meta", Op: memstore.OpPut, Key: "reverse-index"},
 	{Store: "meta", Op: memstore.OpDelete, Key: "reverse-index"},
+	{Store: "meta", Op: OpGetShort, Key: "bundle-files"},
+	{Store: "blob", Op: OpGetShort, Key: ""},
+	{Store: "meta", Op: OpGetShort, Key: "reverse-index"}, // only matters for --resume (chunks are reloaded)
 }
 
 var deleteFaultMenu = []faultT{
@@ -97,6 +107,8 @@ var deleteFaultMenu = []faultT{
 	{Store: "blob", Op: memstore.OpKeysPrefix, Key: ""},
 	{Store: "meta", Op: memstore.OpGet, Key: "reverse-index"},
 	{Store: "meta", Op: memstore.OpKeysPrefix, Key: "reverse-index"},
+	{Store: "meta", Op: OpGetShort, Key: "reverse-index"},
+	{Store: "meta", Op: OpGetShort, Key: "reverse-index"},
 }
 
 func mix(x uint64) uint64 {
@@ -113,7 +125,7 @@ func drawFault(t *rapid.T, phase string) faultT {
 	}
 	f := menu[mix(rapid.Uint64().Draw(t, "fault_kind"))%uint64(len(menu))]
 	f.Phase = phase
-	f.Nth = rapid.IntRange(1, 6).Draw(t, "fault_nth")
+	f.Nth = []int{1, 1, 1, 1, 2, 2, 2, 3, 3, 4, 5, 6}[mix(rapid.Uint64().Draw(t, "fault_nth"))%12]
 	f.Times = 1
 	if rapid.IntRange(0, 5).Draw(t, "fault_twice") == 3 {
 		f.Times = 2
@@ -175,10 +187,34 @@ type outcomeT struct {
 	midOps       int
 }
 
-func (w *worldT) install(faults []faultT, phase string) []*memstore.Fault {
-	var out []*memstore.Fault
+// OpGetShort is a Get whose stream breaks after half of the object (see purgex.ShortRead)
+const OpGetShort = "GetShort"
+
+// installed fault plans of one phase; hits() reports how often each was actually hit
+type plansT struct {
+	phase  string
+	faults []*memstore.Fault
+	short  *purgex.ShortRead
+}
+
+func (p plansT) collect(into map[string]int) {
+	for _, mf := range p.faults {
+		into[p.phase+":"+mf.Op+"/"+mf.KeySub] += mf.Hits
+	}
+	if p.short != nil {
+		into[p.phase+":"+OpGetShort+"/"+p.short.KeySub] += p.short.Hits
+	}
+}
+
+func (w *worldT) install(faults []faultT, phase string) plansT {
+	out := plansT{phase: phase}
 	for _, f := range faults {
 		if f.Phase != phase {
+			continue
+		}
+		if f.Op == OpGetShort {
+			out.short = &purgex.ShortRead{Store: f.Store, KeySub: f.Key, Nth: f.Nth, Times: f.Times}
+			w.SetShortRead(out.short)
 			continue
 		}
 		for _, p := range w.Purge {
@@ -188,7 +224,7 @@ func (w *worldT) install(faults []faultT, phase string) []*memstore.Fault {
 			}
 			mf := &memstore.Fault{Op: f.Op, KeySub: f.Key, Nth: f.Nth, Times: f.Times}
 			v.AddFault(mf)
-			out = append(out, mf)
+			out.faults = append(out.faults, mf)
 			if f.Store == "blob" && f.Op != memstore.OpGet {
 				break // delete-unused only uses the primary context's blob view
 			}
@@ -205,17 +241,22 @@ func (w *worldT) clearHooks() {
 	for _, v := range w.PurgeViews() {
 		v.ClearHooks()
 	}
+	w.SetShortRead(nil)
 	w.Proc.Reset()
 }
 
 func excludedFault(f faultT) (string, bool) {
 	switch {
-	case f.Store == "blob" && f.Op == memstore.OpGet && hx.Known(KnownRootGetSkipped):
+	case f.Store == "blob" && f.Op == memstore.OpGet && known(KnownRootGetSkipped):
 		return KnownRootGetSkipped, true
-	case f.Store == "meta" && f.Op == memstore.OpPut && hx.Known(KnownChunkPutMarks):
+	case f.Store == "meta" && f.Op == memstore.OpPut && known(KnownChunkPutMarks):
 		return KnownChunkPutMarks, true
-	case f.Store == "blob" && f.Op == memstore.OpGetAttr && hx.Known(KnownGetAttrIgnored):
+	case f.Store == "blob" && f.Op == memstore.OpGetAttr && known(KnownGetAttrIgnored):
 		return KnownGetAttrIgnored, true
+	case f.Store == "blob" && f.Op == OpGetShort && known(KnownRootGetSkipped):
+		return KnownRootGetSkipped, true
+	case f.Key == "reverse-index" && f.Op == OpGetShort && known(KnownChunkReadBreaks):
+		return KnownChunkReadBreaks, true
 	}
 	return "", false
 }
@@ -227,7 +268,7 @@ func (w *worldT) applyGuarded(o purgex.Op, phase string, out *outcomeT) error {
 			return err
 		}
 		if reuse {
-			if hx.Known(KnownDedupNoTouch) {
+			if known(KnownDedupNoTouch) {
 				out.excluded++
 				stats.Count("excluded_"+KnownDedupNoTouch, 1)
 				return nil
@@ -277,7 +318,7 @@ func runCase(c caseT, out *outcomeT) error {
 	}
 	installed := w.install(faults, "index")
 	crash := c.Crash
-	if crash != nil && hx.Known(KnownResumeLeaves) {
+	if crash != nil && known(KnownResumeLeaves) {
 		stats.Count("excluded_"+KnownResumeLeaves, 1)
 		out.excluded++
 		crash = nil
@@ -286,10 +327,6 @@ func runCase(c caseT, out *outcomeT) error {
 	if crash != nil {
 		nChunks := (len(ref)+int(c.Chunk)-1)/int(c.Chunk) + 1
 		crashAt = 1 + crash.Sel%(2*nChunks+2)
-		if crashAt == 1 && hx.Known(KnownResumeNoChunk) {
-			stats.Count("excluded_"+KnownResumeNoChunk, 1)
-			crashAt = 3
-		}
 		w.Proc.CrashAt(crashAt, crash.Land)
 	}
 	var inlineErr error
@@ -313,10 +350,7 @@ func runCase(c caseT, out *outcomeT) error {
 	}
 	time.Sleep(time.Millisecond)
 	_, oc := w.BuildIndex(run)
-	for i, mf := range installed {
-		_ = i
-		out.faultHits["index:"+mf.Op+"/"+mf.KeySub] += mf.Hits
-	}
+	installed.collect(out.faultHits)
 	if inlineErr != nil {
 		return fmt.Errorf("upload during the index scan: %v", inlineErr)
 	}
@@ -359,11 +393,15 @@ func runCase(c caseT, out *outcomeT) error {
 		if !c.SameDir {
 			rr.Dir = w.Sc.Dir("kv")
 		}
+		if chunks, _ := w.ReadIndex(); len(chunks) == 0 && known(KnownResumeNoChunk) {
+			// nothing was uploaded before the kill: start over instead of resuming
+			stats.Count("excluded_"+KnownResumeNoChunk, 1)
+			out.excluded++
+			rr.Resume, rr.Force = false, true
+		}
 		installed = w.install(faults, "resume")
 		_, oc2 := w.BuildIndex(rr)
-		for _, mf := range installed {
-			out.faultHits["resume:"+mf.Op+"/"+mf.KeySub] += mf.Hits
-		}
+		installed.collect(out.faultHits)
 		w.clearHooks()
 		out.resumed = true
 		if !oc2.OK() {
@@ -377,8 +415,8 @@ func runCase(c caseT, out *outcomeT) error {
 	case !oc.OK():
 		out.indexFailed = true
 		rr := purgex.Run{Dir: w.Sc.Dir("kv"), Chunk: c.Chunk, Parallel: c.Parallel, Force: true}
-		if c.RerunResume && !hx.Known(KnownResumeLeaves) {
-			if chunks, _ := w.ReadIndex(); len(chunks) > 0 || !hx.Known(KnownResumeNoChunk) {
+		if c.RerunResume && !known(KnownResumeLeaves) {
+			if chunks, _ := w.ReadIndex(); len(chunks) > 0 || !known(KnownResumeNoChunk) {
 				rr.Resume = true
 				out.resumed = true
 			}
@@ -404,9 +442,7 @@ func runCase(c caseT, out *outcomeT) error {
 	installed = w.install(faults, "delete")
 	del := purgex.Run{Dir: w.Sc.Dir("kv"), Parallel: c.Parallel}
 	_, od := w.DeleteUnused(del)
-	for _, mf := range installed {
-		out.faultHits["delete:"+mf.Op+"/"+mf.KeySub] += mf.Hits
-	}
+	installed.collect(out.faultHits)
 	w.clearHooks()
 	if !od.OK() {
 		out.deleteFailed = true
